@@ -21,6 +21,7 @@ package main
 import (
 	"encoding/json"
 	"fmt"
+	"math"
 	"os"
 	"sort"
 	"strings"
@@ -58,16 +59,11 @@ func sign(x int) int {
 	return 0
 }
 
-// implCell evaluates Equals and CompareTo (each guarded on its own) on fresh implementation values.
+// cellOf evaluates Equals and CompareTo (each guarded on its own) on two implementation values.
 // what names the methods that panicked.
-func implCell(a, b *vg.V) (c cell, what string) {
-	var ga, gb value.Value
-	o := vh.Guard(func() { ga, gb = a.ToGo(), b.ToGo() })
-	if !o.OK() {
-		return cell{panicked: true}, "build"
-	}
+func cellOf(ga, gb value.Value) (c cell, what string) {
 	var w []string
-	o = vh.Guard(func() { c.eq = ga.Equals(gb) })
+	o := vh.Guard(func() { c.eq = ga.Equals(gb) })
 	if !o.OK() {
 		c.panicked = true
 		w = append(w, "Equals")
@@ -80,6 +76,16 @@ func implCell(a, b *vg.V) (c cell, what string) {
 	return c, strings.Join(w, "+")
 }
 
+// implCell builds fresh implementation values (no sharing between them) and evaluates the cell.
+func implCell(a, b *vg.V) (c cell, what string) {
+	var ga, gb value.Value
+	o := vh.Guard(func() { ga, gb = a.ToGo(), b.ToGo() })
+	if !o.OK() {
+		return cell{panicked: true}, "build"
+	}
+	return cellOf(ga, gb)
+}
+
 func roundtrip(v *vg.V) (*vg.V, bool) {
 	var d *vg.V
 	o := vh.Guard(func() {
@@ -90,16 +96,23 @@ func roundtrip(v *vg.V) (*vg.V, bool) {
 	return d, o.OK()
 }
 
-// decodeEq: v.Equals(decode(encode v)) on the implementation (the decoded object itself is used)
-func decodeEq(v *vg.V) (eq bool, ok bool) {
+// decodeEqG: g.Equals(decode(encode g)) on the implementation (the decoded object itself is used)
+func decodeEqG(g value.Value) (eq bool, ok bool) {
 	o := vh.Guard(func() {
-		g := v.ToGo()
 		out := gio.NewDataOutputX()
 		value.WriteValue(out, g)
 		d := value.ReadValue(gio.NewDataInputX(out.ToByteArray()))
 		eq = g.Equals(d) && d.Equals(g)
 	})
 	return eq, o.OK()
+}
+
+func decodeEq(v *vg.V) (eq bool, ok bool) {
+	var g value.Value
+	if o := vh.Guard(func() { g = v.ToGo() }); !o.OK() {
+		return false, false
+	}
+	return decodeEqG(g)
 }
 
 func scalarKind(k string) bool {
@@ -211,8 +224,197 @@ func typeOf(v *vg.V) string { return vg.TypeName[v.K] }
 // ---------------------------------------------------------------- pools
 
 type pool struct {
-	how string
-	vs  []*vg.V
+	how   string
+	vs    []*vg.V
+	gos   []value.Value // when set: the implementation values, built once (their payloads may share memory)
+	alias *aliasSpec
+}
+
+// aliasSpec describes a pool whose payloads are windows of ONE backing array (and independent
+// copies of some windows): same start / different lengths, overlapping windows, the identical
+// slice used in two values.  It is what a replay file carries to rebuild the sharing.
+type aliasSpec struct {
+	Kind    string   `json:"kind"`    // X P ai af at al
+	Backing string   `json:"backing"` // one-line value of that kind holding the whole backing array
+	Win     [][3]int `json:"windows"` // lo, hi, 1 = independent copy
+	Wrap    bool     `json:"wrap"`    // each value wrapped in a one-element list
+}
+
+func buildAlias(sp *aliasSpec) pool {
+	b, err := vg.ParseLine(sp.Backing)
+	if err != nil || b.K != sp.Kind {
+		vh.Die("alias backing %q: %v", sp.Backing, err)
+	}
+	pl := pool{how: "aliased:" + sp.Kind, alias: sp}
+	// the shared backing arrays
+	bufB := append([]byte{}, b.Bs...)
+	var buf32 []int32
+	var buf64 []int64
+	var bufF []float32
+	var bufS []string
+	for _, x := range b.Is {
+		buf32 = append(buf32, int32(x))
+		buf64 = append(buf64, x)
+	}
+	for _, x := range b.Us {
+		bufF = append(bufF, math.Float32frombits(uint32(x)))
+	}
+	for _, x := range b.Ss {
+		bufS = append(bufS, string(x))
+	}
+	for _, w := range sp.Win {
+		lo, hi, cp := w[0], w[1], w[2] == 1
+		v := &vg.V{K: sp.Kind}
+		var g value.Value
+		switch sp.Kind {
+		case "X", "P":
+			sl := bufB[lo:hi]
+			if cp {
+				sl = append([]byte{}, sl...)
+			}
+			v.Bs = append([]byte{}, sl...)
+			if sp.Kind == "X" {
+				g = value.NewBlobValue(sl)
+			} else {
+				g = value.NewIP4Value(sl)
+			}
+		case "ai":
+			sl := buf32[lo:hi]
+			if cp {
+				sl = append([]int32{}, sl...)
+			}
+			v.Is = append([]int64{}, b.Is[lo:hi]...)
+			g = value.NewIntArray(sl)
+		case "al":
+			sl := buf64[lo:hi]
+			if cp {
+				sl = append([]int64{}, sl...)
+			}
+			v.Is = append([]int64{}, b.Is[lo:hi]...)
+			g = value.NewLongArray(sl)
+		case "af":
+			sl := bufF[lo:hi]
+			if cp {
+				sl = append([]float32{}, sl...)
+			}
+			v.Us = append([]uint64{}, b.Us[lo:hi]...)
+			g = value.NewFloatArray(sl)
+		case "at":
+			sl := bufS[lo:hi]
+			if cp {
+				sl = append([]string{}, sl...)
+			}
+			for _, x := range b.Ss[lo:hi] {
+				v.Ss = append(v.Ss, append([]byte{}, x...))
+			}
+			g = value.NewTextArray(sl)
+		default:
+			vh.Die("alias kind %q", sp.Kind)
+		}
+		if sp.Wrap {
+			l := value.NewListValue(nil)
+			l.Add(g)
+			g = l
+			v = &vg.V{K: "l", L: []*vg.V{v}}
+		}
+		pl.vs = append(pl.vs, v)
+		pl.gos = append(pl.gos, g)
+	}
+	return pl
+}
+
+// aliasPools: for every payload-carrying type, backing arrays with several content patterns
+func aliasPools(r *vh.Rng, thorough bool) []pool {
+	var out []pool
+	reps := 1
+	if thorough {
+		reps = 12
+	}
+	for rep := 0; rep < reps; rep++ {
+		for _, kind := range []string{"X", "P", "ai", "af", "at", "al"} {
+			for pat := 0; pat < 4; pat++ {
+				n := 8 + r.Intn(5)
+				b := &vg.V{K: kind}
+				elem := func(i int) int64 {
+					switch pat {
+					case 0:
+						return 7 // all equal: every window of one length has the same content
+					case 1:
+						return int64(i % 2)
+					case 2:
+						return int64(i % 4) // [0,4) and [4,8) hold the same content
+					}
+					return r.Range(0, 2)
+				}
+				for i := 0; i < n; i++ {
+					e := elem(i)
+					switch kind {
+					case "X", "P":
+						b.Bs = append(b.Bs, byte(e))
+					case "ai", "al":
+						b.Is = append(b.Is, e-1)
+					case "af":
+						b.Us = append(b.Us, uint64(math.Float32bits(float32(e))))
+					case "at":
+						b.Ss = append(b.Ss, []byte{'a' + byte(e)})
+					}
+				}
+				var win [][3]int
+				if kind == "P" { // an IPv4 value holds exactly four bytes
+					win = [][3]int{{0, 4, 0}, {0, 4, 0}, {2, 6, 0}, {4, 8, 0}, {1, 5, 0}, {0, 4, 1}, {2, 6, 1}, {4, 8, 1}}
+				} else {
+					win = [][3]int{{0, 4, 0}, {0, 8, 0}, {0, 4, 0}, {2, 6, 0}, {4, 8, 0}, {0, 0, 0}, {3, 3, 0}, {0, 4, 1}, {0, 8, 1}, {2, 6, 1}}
+					if rep > 0 {
+						for k := 0; k < 3; k++ {
+							lo := r.Intn(n)
+							hi := lo + r.Intn(n-lo+1)
+							win = append(win, [3]int{lo, hi, r.Intn(2)})
+						}
+					}
+				}
+				sp := &aliasSpec{Kind: kind, Backing: b.Line(), Win: win, Wrap: (pat+rep)%2 == 1}
+				out = append(out, buildAlias(sp))
+			}
+		}
+	}
+	return out
+}
+
+// lookalikes: one value of every implemented type built from "the same content"
+func lookalikes(n int64, bs []byte, cnt int64, empty bool, nilPayload bool) []*vg.V {
+	f32 := uint64(math.Float32bits(float32(n)))
+	f64 := math.Float64bits(float64(n))
+	d := &vg.V{K: "D", I: n}
+	ip := []byte{byte(uint32(n) >> 24), byte(uint32(n) >> 16), byte(uint32(n) >> 8), byte(uint32(n))}
+	s := &vg.V{K: "S"}
+	s.QU[0], s.Q[1], s.QU[2], s.QU[3] = f64, cnt, f64, f64
+	m := &vg.V{K: "M"}
+	m.Q[0], m.Q[1], m.Q[2], m.Q[3] = n, cnt, n, n
+	vs := []*vg.V{{K: "N"}, {K: "B", B: n != 0}, d, {K: "I", I: n}, {K: "L", I: n}, {K: "F", U: f32}, {K: "G", U: f64}, s, m,
+		{K: "T", Bs: bs}, {K: "H", I: n}, {K: "X", Bs: bs, Nil: nilPayload && len(bs) == 0}, {K: "P", Bs: ip}}
+	if empty {
+		vs = append(vs, &vg.V{K: "l"}, &vg.V{K: "ai", Nil: nilPayload}, &vg.V{K: "af", Nil: nilPayload}, &vg.V{K: "at", Nil: nilPayload},
+			&vg.V{K: "al", Nil: nilPayload}, &vg.V{K: "m"}, &vg.V{K: "im"})
+	} else {
+		vs = append(vs, &vg.V{K: "l", L: []*vg.V{d.Clone()}}, &vg.V{K: "ai", Is: []int64{n}}, &vg.V{K: "af", Us: []uint64{f32}},
+			&vg.V{K: "at", Ss: [][]byte{bs}}, &vg.V{K: "al", Is: []int64{n}},
+			&vg.V{K: "m", Ks: [][]byte{[]byte(fmt.Sprint(n))}, L: []*vg.V{d.Clone()}},
+			&vg.V{K: "im", IKs: []int32{int32(n)}, L: []*vg.V{d.Clone()}})
+	}
+	return vs
+}
+
+// crossTypePools: every ordered pair of types, on look-alike content
+func crossTypePools() []pool {
+	var out []pool
+	out = append(out, pool{how: "cross-type:zero", vs: lookalikes(0, nil, 0, true, false)})
+	out = append(out, pool{how: "cross-type:zero-nil", vs: lookalikes(0, nil, 0, true, true)})
+	out = append(out, pool{how: "cross-type:zero-content", vs: lookalikes(0, []byte{0}, 0, false, false)})
+	for _, n := range []int64{1, -1, 2, 10, 127, -128, 2147483647, -2147483648} {
+		out = append(out, pool{how: "cross-type:number", vs: lookalikes(n, []byte(fmt.Sprint(n)), n%7, false, false)})
+	}
+	out = append(out, pool{how: "cross-type:bytes", vs: lookalikes(1633837924, []byte("abcd"), 4, false, false)}) // 0x61626364
+	return out
 }
 
 func mutate(g *vg.Gen, v *vg.V) *vg.V {
@@ -383,7 +585,7 @@ func main() {
 	env, rep := vh.Parse("C20")
 	rng := vh.NewRng(env.Seed)
 	rep.Rule = "a case is one ordered pair (a,b) inside a pool of 4-8 related values (same type / mixed types / mutants of one tree: " +
-		"reordered or replaced map keys, changed leaves, nil vs empty payloads, NaNs / a value and its decoding); laws are evaluated on all pairs and triples of a pool; " +
+		"reordered or replaced map keys, changed leaves, nil vs empty payloads, NaNs / a value and its decoding / one value of every type built from the same content (all ordered type pairs) / payloads that are windows of one shared backing array with their independent copies); laws are evaluated on all pairs and triples of a pool; " +
 		"non-trivial = a and b are not both null; distinct by the two one-line forms"
 
 	var pools []pool
@@ -395,13 +597,18 @@ func main() {
 		}
 		var rf struct {
 			Cases []struct {
-				Values []string `json:"values"`
+				Values []string   `json:"values"`
+				Alias  *aliasSpec `json:"alias"`
 			} `json:"cases"`
 		}
 		if err := json.Unmarshal(b, &rf); err != nil {
 			vh.Die("replay: %v", err)
 		}
 		for _, rc := range rf.Cases {
+			if rc.Alias != nil {
+				pools = append(pools, buildAlias(rc.Alias))
+				continue
+			}
 			p := pool{how: "replay"}
 			for _, l := range rc.Values {
 				v, err := vg.ParseLine(l)
@@ -479,6 +686,8 @@ func main() {
 			}
 			pools = append(pools, pl)
 		}
+		pools = append(pools, crossTypePools()...)
+		pools = append(pools, aliasPools(rng.Fork(), env.Thorough)...)
 	}
 
 	// ---- model
@@ -529,7 +738,11 @@ func main() {
 			model[i] = make([]string, n)
 			differs[i] = make([]bool, n)
 			for j := 0; j < n; j++ {
-				impl[i][j], what[i][j] = implCell(p.vs[i], p.vs[j])
+				if p.gos != nil {
+					impl[i][j], what[i][j] = cellOf(p.gos[i], p.gos[j])
+				} else {
+					impl[i][j], what[i][j] = implCell(p.vs[i], p.vs[j])
+				}
 				model[i][j] = outs[li]
 				li++
 				differs[i][j] = impl[i][j].String() != model[i][j]
@@ -612,6 +825,22 @@ func main() {
 				return
 			}
 			lawDiffers = true
+			if p.gos != nil {
+				// payloads share memory: fresh rebuilds would lose the sharing, so no shrinking;
+				// the replay carries the aliasing layout and the indices of the values involved
+				meth := "Equals"
+				if strings.HasPrefix(law, "cmp") {
+					meth = "CompareTo"
+				}
+				if law == "total" {
+					meth = strings.Split(detail, "+")[0]
+					law = "panic"
+				}
+				failOnce("property", typeOf(vals[0])+"."+meth+":"+law+"-aliased-payload",
+					detail+" (payloads are windows of one backing array / independent copies)", vals,
+					map[string]interface{}{"alias": p.alias, "indices": idx})
+				return
+			}
 			a, b := vals[0], vals[len(vals)-1]
 			key := ""
 			switch law {
@@ -681,7 +910,13 @@ func main() {
 				lawFail("cmp-refl", []int{i}, false, "CompareTo(self) is not 0 although Equals(self)")
 			}
 			// decode law (on the implementation object graph)
-			if e, okd := decodeEq(p.vs[i]); okd && !e {
+			var e, okd bool
+			if p.gos != nil {
+				e, okd = decodeEqG(p.gos[i])
+			} else {
+				e, okd = decodeEq(p.vs[i])
+			}
+			if okd && !e {
 				// does the model agree?  model: eqV v v (the decoding of a well-formed value is the value)
 				meq, _ := mcell(i, i)
 				if !meq {
@@ -739,9 +974,15 @@ func main() {
 						if !impl[i][j].panicked && me == impl[i][j].eq && mc != impl[i][j].cmp {
 							meth = "CompareTo"
 						}
-						failOnce("correspondence", typeOf(p.vs[i])+"."+meth+":differs-from-model",
+						var extra map[string]interface{}
+						key := typeOf(p.vs[i]) + "." + meth + ":differs-from-model"
+						if p.gos != nil {
+							extra = map[string]interface{}{"alias": p.alias, "indices": []int{i, j}}
+							key += "-aliased-payload"
+						}
+						failOnce("correspondence", key,
 							"implementation "+impl[i][j].String()+", model "+model[i][j]+"; all laws hold on this pool of the implementation",
-							[]*vg.V{p.vs[i], p.vs[j]}, nil)
+							[]*vg.V{p.vs[i], p.vs[j]}, extra)
 					}
 				}
 			}
